@@ -3,6 +3,7 @@ package llvc
 import (
 	"fmt"
 	"sort"
+	"strconv"
 	"strings"
 	"sync"
 	"time"
@@ -29,13 +30,24 @@ type Obligation struct {
 	facts      *factNode
 	known      *knownNode
 	values     []string
+	hints      []smt.Term // sufficient refutations tried when the exact query is undecided (counterexample search)
+	cex        *smt.Term  // refutation under which a counterexample was found (replaces "not goal")
 }
 
 // Query returns the SMT-LIB text whose unsatisfiability proves the obligation.
+// (After a counterexample was found through a sufficient refutation, it is
+// the satisfiable query "path condition and refutation".)
 func (o *Obligation) Query() string {
+	return o.queryWith(append([]string{o.res.pktLen0.S}, o.values...))
+}
+
+func (o *Obligation) queryWith(gv []string) string {
 	o.res.mu.Lock()
 	defer o.res.mu.Unlock()
-	return o.res.ctx.Query(o.facts.list(), o.pc, o.goal, append([]string{o.res.pktLen0.S}, o.values...))
+	if o.cex != nil {
+		return o.res.ctx.SatQuery(o.facts.list(), smt.And(o.pc, *o.cex), []string{o.res.pktLen0.S})
+	}
+	return o.res.ctx.Query(o.facts.list(), o.pc, o.goal, gv)
 }
 
 // WeakQuery returns a cheaper sufficient query: instead of the exact path
@@ -48,6 +60,14 @@ func (o *Obligation) Query() string {
 func (o *Obligation) WeakQuery() string {
 	o.res.mu.Lock()
 	defer o.res.mu.Unlock()
+	c, ok := o.weakCase()
+	if !ok {
+		return ""
+	}
+	return o.res.tm.weakQuery([]weakCase{c})
+}
+
+func (o *Obligation) weakCase() (weakCase, bool) {
 	tm := o.res.tm
 	var gs []smt.Term
 	for n := o.known; n != nil; n = n.next {
@@ -64,7 +84,7 @@ func (o *Obligation) WeakQuery() string {
 		gs[i], gs[j] = gs[j], gs[i]
 	}
 	if len(gs) == 0 {
-		return ""
+		return weakCase{}, false
 	}
 	cone := tm.scalarSyms(o.goal.S)
 	syms := make([]map[string]bool, len(gs))
@@ -100,7 +120,7 @@ func (o *Obligation) WeakQuery() string {
 			as = append(as, g)
 		}
 	}
-	return tm.weakQuery(as, o.goal, nil)
+	return weakCase{as: as, goal: o.goal}, true
 }
 
 type blockProbe struct {
@@ -330,6 +350,7 @@ func (e *executor) verifyEntry(f *Function, pt string, spec *ProgSpec) error {
 				}
 				if o := e.oblige(fr, ls, "pass_unmodified", "via "+lf.label, goal, src); o != nil {
 					o.values = vals
+					o.hints = e.storeWitnesses(sn.writes)
 				}
 				continue
 			}
@@ -341,10 +362,49 @@ func (e *executor) verifyEntry(f *Function, pt string, spec *ProgSpec) error {
 			}
 			if o := e.oblige(fr, &ls, "pass_unmodified", "via "+lf.label, goal, src); o != nil {
 				o.values = vals
+				o.hints = e.storeWitnesses(out.writes)
 			}
 		}
 	}
 	return nil
+}
+
+// storeWitnesses proposes refutations of "packet unmodified" that avoid the
+// final memory term: "store i executes, the byte it writes differs from the
+// initial packet byte at that address, the address is below the initial
+// length, and no later store covers that address".  Each is sufficient for
+// the exact goal to fail (final[a] is then the stored byte).
+func (e *executor) storeWitnesses(w *factNode) []smt.Term {
+	if e.pktOpaque {
+		return nil
+	}
+	var idx []int
+	seen := map[int]bool{}
+	for _, t := range w.list() {
+		i, err := strconv.Atoi(t.S)
+		if err != nil || seen[i] || e.pktStores[i].val == nil {
+			continue
+		}
+		seen[i] = true
+		idx = append(idx, i)
+	}
+	sort.Ints(idx)
+	var out []smt.Term
+	for n, i := range idx {
+		if !(n < 3 || n >= len(idx)-3) {
+			continue
+		}
+		ev := e.pktStores[i]
+		a := ev.off
+		parts := []smt.Term{ev.pc, e.tm.icmp("ult", a, e.pktLen0),
+			smt.Not(smt.Eq(e.byteTerm(Byte{V: ev.val, Idx: 0}), smt.Select(e.res.pkt0, a)))}
+		for j := i + 1; j < len(e.pktStores); j++ {
+			l := e.pktStores[j]
+			parts = append(parts, smt.Implies(l.pc, e.tm.icmp("uge", e.tm.sub(a, l.off), lit(uint64(l.n), 64))))
+		}
+		out = append(out, e.tm.named("store_witness", smt.And(parts...)))
+	}
+	return out
 }
 
 type retLeaf struct {
@@ -554,6 +614,22 @@ func Solve(obligs []*Obligation, solver *smt.Solver, workers int) []Solved {
 	var wg sync.WaitGroup
 	exact := func(i int, spent float64) {
 		s := &out[i]
+		s.TimeS = spent
+		// counterexample search through sufficient refutations first (cheap
+		// when they apply): sat carries over to the exact query, anything
+		// else is inconclusive
+		for hi := range s.O.hints {
+			s.O.cex = &s.O.hints[hi]
+			hq := s.O.Query()
+			hr := quick.Check(hq)
+			s.TimeS += hr.TimeS
+			if hr.Status == "sat" {
+				s.Status, s.Solver, s.Values, s.QueryBytes = "sat", hr.Solver+"+store-witness", hr.Values, len(hq)
+				s.Model = s.O.extractModel(solver)
+				return
+			}
+			s.O.cex = nil
+		}
 		q := s.O.Query()
 		s.QueryBytes = len(q)
 		if len(q) > MaxQueryBytes {
@@ -561,8 +637,9 @@ func Solve(obligs []*Obligation, solver *smt.Solver, workers int) []Solved {
 			return
 		}
 		r := solver.Check(q)
-		s.Status, s.Solver, s.TimeS, s.Values, s.Outputs = r.Status, r.Solver, r.TimeS+spent, r.Values, r.Outputs
-		if r.Status == "sat" {
+		s.Status, s.Solver, s.Values, s.Outputs = r.Status, r.Solver, r.Values, r.Outputs
+		s.TimeS += r.TimeS
+		if s.Status == "sat" {
 			s.Model = s.O.extractModel(solver)
 		}
 	}
@@ -637,7 +714,7 @@ func Solve(obligs []*Obligation, solver *smt.Solver, workers int) []Solved {
 			jobs <- job{[]int{i}, ""}
 			continue
 		}
-		if len(grp) > 0 && (obligs[grp[0]].known != o.known || len(grp) >= WeakGroupSize) {
+		if len(grp) >= WeakGroupSize {
 			flush()
 		}
 		grp = append(grp, i)
@@ -649,21 +726,26 @@ func Solve(obligs []*Obligation, solver *smt.Solver, workers int) []Solved {
 }
 
 // WeakGroupSize bounds how many obligations are proved by one weak query.
-var WeakGroupSize = 24
+var WeakGroupSize = 16
 
-// weakGroup builds the weak query for the conjunction of the goals of
-// obligations that share their known-condition list.
+// weakGroup builds one weak query for several obligations: it is unsat iff
+// each of them follows from its own (sliced) known branch conditions.
 func weakGroup(os []*Obligation) string {
-	if len(os) == 1 {
-		return os[0].WeakQuery()
+	if len(os) == 0 {
+		return ""
 	}
-	goals := make([]smt.Term, len(os))
-	for i, o := range os {
-		goals[i] = o.goal
+	res := os[0].res
+	res.mu.Lock()
+	defer res.mu.Unlock()
+	var cases []weakCase
+	for _, o := range os {
+		c, ok := o.weakCase()
+		if !ok {
+			c = weakCase{goal: o.goal}
+		}
+		cases = append(cases, c)
 	}
-	tmp := *os[0]
-	tmp.goal = smt.And(goals...)
-	return tmp.WeakQuery()
+	return res.tm.weakQuery(cases)
 }
 
 // NoWeakQueries disables the guard-sliced first attempt (debugging).
